@@ -29,8 +29,20 @@ impl T {
     }
 }
 
+thread_local! {
+    /// set by `print_select` while printing with `Style::prefixed`
+    static USE_PREFIX: std::cell::Cell<bool> = const { std::cell::Cell::new(false) };
+}
+
 pub fn const_text(c: &str) -> String {
     if is_iri(c) {
+        if USE_PREFIX.with(|u| u.get()) {
+            if let Some(local) = c.strip_prefix(crate::ds::NS) {
+                if !local.is_empty() && local.chars().all(|ch| ch.is_ascii_alphanumeric()) {
+                    return format!("k:{}", local);
+                }
+            }
+        }
         format!("<{}>", c)
     } else if is_num(c) {
         c.to_string()
@@ -279,6 +291,8 @@ pub struct Style {
     pub abbreviate: bool,
     pub lowercase_keywords: bool,
     pub newlines: bool,
+    /// declare `PREFIX k: <http://k/>` and print vocabulary IRIs as prefixed names
+    pub prefixed: bool,
 }
 
 fn kw(s: &Style, k: &str) -> String {
@@ -373,6 +387,12 @@ pub fn print_p(p: &P, st: &Style) -> String {
 }
 
 pub fn print_select(q: &Select, st: &Style) -> String {
+    if st.prefixed && !USE_PREFIX.with(|u| u.get()) {
+        USE_PREFIX.with(|u| u.set(true));
+        let body = print_select(q, st);
+        USE_PREFIX.with(|u| u.set(false));
+        return format!("{} k: <{}> {}", kw(st, "PREFIX"), crate::ds::NS, body);
+    }
     let mut out = kw(st, "SELECT");
     if q.distinct {
         out.push(' ');
